@@ -3,7 +3,7 @@ EXTENDS Malformed
 (* ---- judge ---- *)
 TraceLog == IF "TRACE" \in DOMAIN IOEnv THEN ndJsonDeserialize(IOEnv.TRACE) ELSE <<>>
 VARIABLES l, nbad
-AbsShape(e) == [rpc |-> e.rpc, res |-> e.res, phase |-> e.phase, lop |-> e.lop, nval |-> e.nval, invert |-> e.invert, re |-> e.re, w |-> e.w]
+AbsShape(e) == [rpc |-> e.rpc, res |-> e.res, phase |-> e.phase, lop |-> e.lop, nval |-> e.nval, invert |-> e.invert, re |-> e.re, w |-> e.w, noopt |-> e.noopt]
 TInit == l = 1 /\ nbad = 0
 Check(e) ==
   IF ~e.alive
